@@ -271,6 +271,16 @@ Theorem width_recovered_refuted :
 Proof. exact width_old_refuted. Qed.
 Print Assumptions width_recovered_refuted.
 
+(* The FontMatrix of the Top DICT (simple or CID-keyed) and of every Font DICT
+   is read back as written, both when it is stored and when it is omitted
+   because it equals the default of its place (identity for the Top DICT of a
+   CID-keyed font, [0.001 0 0 0.001 0 0] for a simple font and for Font DICTs):
+   the writer omits against the same default the reader substitutes. *)
+Theorem fontmatrix_roundtrip :
+  forall (p : fm_place) (fm : list Z), M_fm_read p (M_fm_write p fm) = fm.
+Proof. exact fontmatrix_roundtrip_gen. Qed.
+Print Assumptions fontmatrix_roundtrip.
+
 (* ---------- predefined charsets; the DICT decoder as a whole ---------- *)
 Local Open Scope N_scope.
 
